@@ -35,5 +35,25 @@ done
 git -C /repo worktree remove --force "$wt"
 rm -rf /tmp/govc-selftest/ev
 cat /tmp/govc-selftest/results.txt
-[ -z "$filter" ] && cp /tmp/govc-selftest/results.txt "$out"
+if [ -z "$filter" ]; then
+  cp /tmp/govc-selftest/results.txt "$out"
+else
+  # merge: replace the lines of the re-run seeds in the committed table
+  python3 - "$out" /tmp/govc-selftest/results.txt <<'PY'
+import sys
+out, new = sys.argv[1], sys.argv[2]
+rows = {}
+order = []
+for path in (out, new):
+    try:
+        for line in open(path):
+            k = line.split(' ', 1)[0]
+            if k not in rows:
+                order.append(k)
+            rows[k] = line
+    except FileNotFoundError:
+        pass
+open(out, 'w').write(''.join(rows[k] for k in sorted(order)))
+PY
+fi
 exit 0
